@@ -33,6 +33,8 @@ def run(ck):
     r7_encoding(ck, w)
     r8_partial(ck, w)
     r9_looped(ck, w)
+    from . import c11
+    c11.r5_unchecked(ck, w, rule='C18.R10', crates=['zkir', 'zk_stdlib'], floor=0)
 
 
 def enum_variants(w, nid):
